@@ -162,6 +162,11 @@ func (w *RecWAL) count(side string) {
 }
 
 func (w *RecWAL) Save(hs raftpb.HardState, ents []raftpb.Entry, snap raftpb.Snapshot) error {
+	if f := w.c.SaveDelay; f != nil && !w.n.Dead() {
+		if d := f(w.n, w.Group); d > 0 {
+			time.Sleep(d)
+		}
+	}
 	content := !etcdRaft.IsEmptyHardState(hs) || len(ents) > 0 || !etcdRaft.IsEmptySnap(snap)
 	call := "Save"
 	if !etcdRaft.IsEmptySnap(snap) {
